@@ -342,6 +342,20 @@ def _merge_stmts(a: ast.stmt, b: ast.stmt, test: ast.AST) -> Optional[ast.stmt]:
     return a2
 
 
+def _reads_free(node: ast.AST, name: str) -> bool:
+    """does node read the variable `name` of the enclosing function scope (occurrences bound by a comprehension of their own do not count)?"""
+    if isinstance(node, ast.Name):
+        return node.id == name
+    if isinstance(node, (ast.ListComp, ast.SetComp, ast.GeneratorExp, ast.DictComp)):
+        bound = {x.id for g in node.generators for x in ast.walk(g.target) if isinstance(x, ast.Name)}
+        if name in bound:
+            return _reads_free(node.generators[0].iter, name)      # only the first iterable is evaluated outside the comprehension
+    if isinstance(node, ast.Lambda):
+        if name in {a.arg for a in [*node.args.posonlyargs, *node.args.args, *node.args.kwonlyargs]}:
+            return False
+    return any(_reads_free(ch, name) for ch in ast.iter_child_nodes(node))
+
+
 def _first_walrus(e: ast.AST) -> Optional[tuple]:
     """(holder, field, index) of a walrus that is the first thing the expression evaluates"""
     holder: Optional[ast.AST] = None
@@ -573,8 +587,8 @@ class Structurer:
                 if isinstance(st, ast.For) and st.orelse and len(st.body) == 1 and isinstance(st.body[0], ast.If) and not st.body[0].orelse \
                         and len(st.body[0].body) == 1 and isinstance(st.body[0].body[0], ast.Break) and isinstance(st.target, ast.Name) \
                         and _first_walrus(st.body[0].test) is None \
-                        and not any(isinstance(x, ast.Name) and x.id == st.target.id for later in body[i + 1:] for x in ast.walk(later)) \
-                        and not any(isinstance(x, ast.Name) and x.id == st.target.id for later in st.orelse for x in ast.walk(later)) \
+                        and not any(_reads_free(later, st.target.id) for later in body[i + 1:]) \
+                        and not any(_reads_free(later, st.target.id) for later in st.orelse) \
                         and not any(isinstance(x, (ast.Break, ast.Continue)) for later in st.orelse for x in ast.walk(later)):
                     gen = ast.GeneratorExp(elt=st.body[0].test, generators=[ast.comprehension(target=st.target, iter=st.iter, ifs=[], is_async=0)])
                     test = ast.UnaryOp(op=ast.Not(), operand=ast.Call(func=ast.Name(id='any', ctx=ast.Load()), args=[gen], keywords=[]))
@@ -811,6 +825,20 @@ class _Exprs(ast.NodeTransformer):
             a = n.args[0]
             if _strlit(a):
                 return a
+        # getattr(x, '<identifier>') is x.<identifier>
+        if isinstance(n.func, ast.Name) and n.func.id == 'getattr' and len(n.args) == 2 and not n.keywords and isinstance(n.args[1], ast.Constant) \
+                and isinstance(n.args[1].value, str) and n.args[1].value.isidentifier() and not n.args[1].value.startswith('__'):
+            return ast.copy_location(ast.Attribute(value=n.args[0], attr=n.args[1].value, ctx=ast.Load()), n)
+        return n
+
+    def visit_Expr(self, n: ast.Expr) -> ast.AST:
+        self.generic_visit(n)
+        # setattr(x, '<identifier>', v) as a statement is x.<identifier> = v
+        c = n.value
+        if isinstance(c, ast.Call) and isinstance(c.func, ast.Name) and c.func.id == 'setattr' and len(c.args) == 3 and not c.keywords \
+                and isinstance(c.args[1], ast.Constant) and isinstance(c.args[1].value, str) and c.args[1].value.isidentifier() \
+                and not c.args[1].value.startswith('__'):
+            return ast.copy_location(ast.Assign(targets=[ast.Attribute(value=c.args[0], attr=c.args[1].value, ctx=ast.Store())], value=c.args[2]), n)
         return n
 
     def visit_IfExp(self, n: ast.IfExp) -> ast.AST:
